@@ -528,23 +528,23 @@ func writeEvidence(dir string, r *runResult) error {
 		perRuleCount[o.Rule][o.Verdict]++
 	}
 	cov := map[string]any{
-		"explanation":         explanation,
-		"obligations":         len(obs),
-		"discharged":          discharged,
-		"evaluations":         len(obs),
-		"distinct_nontrivial": nontriv,
-		"rule":                "one obligation per (rule id, construct) found by resolving the rule's anchors in the type-checked program; non-trivial = discharge needed a dominance, path, flow, lock-scope or table-agreement argument rather than mere presence; distinct = distinct rule+construct keys",
-		"samples":             samples,
-		"configs":             r.Configs,
-		"packages_loaded":     r.NumPkgs,
-		"functions_analysed":  r.NumFuncs,
-		"call_graph_nodes":    r.CGNodes,
-		"per_rule":            perRuleCount,
-		"unanalysed_build_tags": []string{"fips", "simdutf", "non-linux GOOS files"},
+		"explanation":            explanation,
+		"obligations":            len(obs),
+		"discharged":             discharged,
+		"evaluations":            len(obs),
+		"distinct_nontrivial":    nontriv,
+		"rule":                   "one obligation per (rule id, construct) found by resolving the rule's anchors in the type-checked program; non-trivial = discharge needed a dominance, path, flow, lock-scope or table-agreement argument rather than mere presence; distinct = distinct rule+construct keys",
+		"samples":                samples,
+		"configs":                r.Configs,
+		"packages_loaded":        r.NumPkgs,
+		"functions_analysed":     r.NumFuncs,
+		"call_graph_nodes":       r.CGNodes,
+		"per_rule":               perRuleCount,
+		"unanalysed_build_tags":  []string{"fips", "simdutf", "non-linux GOOS files"},
 		"known_findings_matched": r.KnownMatched,
-		"checker_cmd":         "bin/arccheck -prop " + r.Prop + " -tier " + r.Tier,
-		"trusted_base":        []string{"go/types, go/ssa (x/tools v0.29.0)", "the rule tables in /verif/checker", "third-party packages behave as documented"},
-		"exhaustive":          false,
+		"checker_cmd":            "bin/arccheck -prop " + r.Prop + " -tier " + r.Tier,
+		"trusted_base":           []string{"go/types, go/ssa (x/tools v0.29.0)", "the rule tables in /verif/checker", "third-party packages behave as documented"},
+		"exhaustive":             false,
 	}
 	for k, v := range r.Extra {
 		cov[k] = v
